@@ -157,6 +157,8 @@ Definition trampoline_rejects_unknown : bool := {b(pr['unknown_rejected'])}.
 Definition trampoline_rejects_empty_name : bool := {b(pr['empty_name_rejected'])}.
 Definition trampoline_rejects_other_version : bool := {b(pr['other_version_rejected'])}.
 Definition trampoline_rejects_two_memories : bool := {b(pr['two_memories_rejected'])}.
+(* probes of the real tool: a guest importing shopify_function_input_get from <module> -> accepted? *)
+Definition trampoline_module_probes : list (string * bool) := [{"; ".join('("%s", %s)' % (m.replace('"', '""'), b(a)) for m, a in pr['module_probes'])}].
 (* every function import of the trampolined all-imports guest *)
 Definition trampoline_emits_modules : list string := {strs(sorted({m for m, _, _ in pr['trampoline_emits']}))}.
 Definition trampoline_emits : table :=
